@@ -1,7 +1,11 @@
 NOTES = ("All checks: ./check <ID> quick|thorough builds the harness against /repo's working tree in two build profiles "
          "(checked = overflow checks + debug assertions, unchecked = neither; build failure => exit 2), replays regress/<ID>/, "
          "then runs generated search against an explicit oracle in the checked profile and re-executes itself in the unchecked "
-         "profile with a lighter budget (full budget for C05). Exit 0 held, 1 VIOLATION (replay file printed), 2 cannot decide "
+         "profile with a lighter budget (full budget for C05) and a Trace-level log logger installed. Before the generators every check "
+         "runs a stress pass over representative items of its own domain: right after each of 14 tours of the public API (state "
+         "across functions), from 8 threads at once, and — in 20 fresh child processes — as the very first calls from 16 barrier-released "
+         "threads (first-use races); call-order independence is checked by exhaustive ordered pairs over finite item sets and by "
+         "generated call sequences over related hands. Exit 0 held, 1 VIOLATION (replay file printed), 2 cannot decide "
          "(build failure, oracle self-check failure, watchdog, non-reproducible mismatch). All randomness is a pure function of "
          "VERIF_SEED. Genuine defects found and repaired are listed in known-findings.txt as 'fixed:' lines (three fix: commits "
          "in /repo); no known finding is open. DESIGN.md section 11 records which checks catch which seeded changes.")
